@@ -1,2 +1,6 @@
 -- Root of the `Placement` library: model, generated tables, property theorems.
 import Placement.Model.Basic
+import Placement.Model.Prog
+import Placement.Model.Objects
+import Placement.Model.Handlers
+import Placement.Spec.Inv
